@@ -57,7 +57,9 @@ func hammerWatch(body func(), ops *int64) (hung, confirmed bool) {
 
 func c15hammer(env *core.Env, cs c15case, idx int, res *core.CaseResult) {
 	r := rand.New(rand.NewSource(env.Seed*23_000_009 + int64(idx)))
-	switch cs.Rep % 7 {
+	switch cs.Rep % 8 {
+	case 7:
+		c15hammerFirstWriters(r, cs, res)
 	case 5:
 		c15hammerWholeWrites(r, cs, res)
 	case 6:
@@ -373,6 +375,83 @@ func c15hammerCrossCopy(r *rand.Rand, cs c15case, res *core.CaseResult) {
 	res.Nontrivial = true
 	res.Count("hammer_crosscopy_programs", 1)
 	res.Count("hammer_ops", int(atomic.LoadInt64(&copies)))
+}
+
+// c15hammerFirstWriters: round after round a brand-new, still empty file is written by 2..4 goroutines at the same
+// instant, each through its own handle (opened before the start signal) and into its own region. These are the very
+// first operations on the file's contents: whatever is set up lazily for them is set up now, by all of them at once
+// (the race detector watches). Afterwards every region holds its writer's bytes.
+func c15hammerFirstWriters(r *rand.Rand, cs c15case, res *core.CaseResult) {
+	m, _ := mem.NewFS()
+	rounds := 150 + r.Intn(100)
+	k := 2 + r.Intn(3)
+	region := []int{1, 100, 5000}[r.Intn(3)]
+	var ops int64
+	bad := ""
+	body := func() {
+		for round := 0; round < rounds && bad == ""; round++ {
+			name := fmt.Sprintf("fresh%d", round)
+			if round%2 == 0 {
+				_ = hackpadfs.WriteFullFile(m, name, nil, 0o644)
+			} else if f, err := hackpadfs.Create(m, name); err == nil {
+				_ = f.Close()
+			}
+			hs := make([]hackpadfs.File, k)
+			for i := range hs {
+				h, err := hackpadfs.OpenFile(m, name, os.O_RDWR, 0)
+				if err != nil {
+					bad = "setup: " + err.Error()
+					return
+				}
+				hs[i] = h
+			}
+			var goFlag int32
+			var wg sync.WaitGroup
+			errs := make([]error, k)
+			for i := 0; i < k; i++ {
+				wg.Add(1)
+				go func(i int) {
+					defer wg.Done()
+					buf := bytes.Repeat([]byte{byte('a' + i)}, region)
+					for atomic.LoadInt32(&goFlag) == 0 {
+					}
+					if p := core.Recover(func() { _, errs[i] = hackpadfs.WriteAtFile(hs[i], buf, int64(i*region)) }); p != "" {
+						errs[i] = fmt.Errorf("panic: %s", p)
+					}
+					atomic.AddInt64(&ops, 1)
+				}(i)
+			}
+			atomic.StoreInt32(&goFlag, 1)
+			wg.Wait()
+			for _, h := range hs {
+				_ = h.Close()
+			}
+			got, rerr := hackpadfs.ReadFile(m, name)
+			for i := 0; i < k && bad == ""; i++ {
+				switch {
+				case errs[i] != nil && strings.HasPrefix(errs[i].Error(), "panic"):
+					bad = fmt.Sprintf("round %d: writer %d of %d first writers of a fresh file: %v", round, i, k, errs[i])
+				case errs[i] == nil && (rerr != nil || len(got) < (i+1)*region || bytes.Count(got[i*region:(i+1)*region], []byte{byte('a' + i)}) != region):
+					bad = fmt.Sprintf("round %d: %d goroutines wrote %d bytes each into their own regions of a brand-new file at the same instant, all successfully; region %d does not hold its writer's bytes afterwards (file: %d bytes, read error %v)", round, k, region, i, len(got), rerr)
+				}
+			}
+			_ = hackpadfs.Remove(m, name)
+		}
+	}
+	hung, confirmed := hammerWatch(body, &ops)
+	wit := map[string]any{"case": cs, "writers": k, "region": region, "rounds": rounds}
+	switch {
+	case hung && confirmed:
+		res.Violate("C15|hammer-first-writers|deadlock", "the first writers of a fresh file stopped making progress; the goroutine dump shows them parked on locks", wit)
+	case hung:
+		res.Inconclusive = "hammer program did not finish, no blocked-state witness"
+	}
+	if bad != "" {
+		res.Violate("C15|hammer-first-writers|lost-write", bad, wit)
+	}
+	res.Nontrivial = true
+	res.Count("hammer_first_writer_rounds", rounds)
+	res.Count("hammer_ops", int(atomic.LoadInt64(&ops)))
 }
 
 // c15hammerWholeWrites: the file keeps its size; every write replaces the WHOLE contents with one letter (a single
